@@ -179,6 +179,9 @@ func (r *Rollback) performRollback(currentRelease, targetRelease *release.Releas
 	// pre-rollback hooks
 	if !r.DisableHooks {
 		if err := r.cfg.execHook(targetRelease, release.HookPreRollback, r.WaitStrategy, r.Timeout); err != nil {
+			// Do not leave the new revision pending: record it as failed.
+			targetRelease.SetStatus(release.StatusFailed, fmt.Sprintf("Rollback %q failed: %s", targetRelease.Name, err.Error()))
+			r.cfg.recordRelease(targetRelease)
 			return targetRelease, err
 		}
 	} else {
@@ -247,6 +250,9 @@ func (r *Rollback) performRollback(currentRelease, targetRelease *release.Releas
 	// post-rollback hooks
 	if !r.DisableHooks {
 		if err := r.cfg.execHook(targetRelease, release.HookPostRollback, r.WaitStrategy, r.Timeout); err != nil {
+			// Do not leave the new revision pending: record it as failed.
+			targetRelease.SetStatus(release.StatusFailed, fmt.Sprintf("Rollback %q failed: %s", targetRelease.Name, err.Error()))
+			r.cfg.recordRelease(targetRelease)
 			return targetRelease, err
 		}
 	}
